@@ -37,7 +37,8 @@ type c19Shared struct {
 	psr     parser.Parser
 	texts   []string
 	lookup  []ast.Pred
-	badSeal []byte // a sealed copy of the token whose final signature has one bit flipped
+	badSeal []byte                   // a sealed copy of the token whose final signature has one bit flipped
+	opt     biscuit.AuthorizerOption // ONE option value used by every authorizer of every goroutine
 }
 
 // c19Op runs one operation and returns a canonical text of its result.
@@ -45,10 +46,10 @@ func c19Op(sh *c19Shared, op int, label string) string {
 	t := sh.tok
 	switch op {
 	case 0: // AuthorizerFor only (signature verification)
-		_, err := t.B.AuthorizerFor(biscuit.WithSingularRootPublicKey(t.Pub), lib.BigLimits())
+		_, err := t.B.AuthorizerFor(biscuit.WithSingularRootPublicKey(t.Pub), sh.opt)
 		return fmt.Sprint(err)
 	case 1: // Authorize with own authorizer, shared parsed values added
-		a, err := t.B.AuthorizerFor(biscuit.WithSingularRootPublicKey(t.Pub), lib.BigLimits())
+		a, err := t.B.AuthorizerFor(biscuit.WithSingularRootPublicKey(t.Pub), sh.opt)
 		if err != nil {
 			return "ERR " + err.Error()
 		}
@@ -63,7 +64,7 @@ func c19Op(sh *c19Shared, op int, label string) string {
 		}}.Lib())
 		return string(lib.Classify(a.Authorize()))
 	case 2: // Query
-		a, err := t.B.AuthorizerFor(biscuit.WithSingularRootPublicKey(t.Pub), lib.BigLimits())
+		a, err := t.B.AuthorizerFor(biscuit.WithSingularRootPublicKey(t.Pub), sh.opt)
 		if err != nil {
 			return "ERR " + err.Error()
 		}
@@ -151,7 +152,7 @@ func c19Op(sh *c19Shared, op int, label string) string {
 		if err != nil {
 			return "unmarshal: " + err.Error()
 		}
-		_, err = b.AuthorizerFor(biscuit.WithSingularRootPublicKey(t.Pub), lib.BigLimits())
+		_, err = b.AuthorizerFor(biscuit.WithSingularRootPublicKey(t.Pub), sh.opt)
 		return fmt.Sprint(err)
 	default:
 		return fmt.Sprint(len(t.B.Checks()), t.B.GetContext(), t.B.BlockCount(), idText(t.B.RootKeyID()))
@@ -188,10 +189,12 @@ func c19Run(c *core.C) {
 		return
 	}
 	psr := parser.New()
-	sh := &c19Shared{tok: tok, auth: s.Auth, probes: s.Probes, psr: psr}
+	sh := &c19Shared{tok: tok, auth: s.Auth, probes: s.Probes, psr: psr, opt: lib.BigLimits()}
+	// the shared parsed values contain set literals written in no particular order
 	sh.pFact, _ = psr.Fact(`resource("file1")`, nil)
-	sh.pRule, _ = psr.Rule(`can_read($f) <- resource($f), $f.starts_with("file") || [1, 2].contains(3)`, nil)
-	sh.pCheck, _ = psr.Check(`check if resource($r), $r.length() > 0 or operation("read")`, nil)
+	sh.pRule, _ = psr.Rule(`can_read($f) <- resource($f), $f.starts_with("file") || [3, 1, 2].contains(3) || ["write", "read"].contains("x")`, nil)
+	sh.pCheck, _ = psr.Check(`check if resource($r), $r.length() > 0 or operation("read"), ["z", "b", "a"].contains("b")`, nil)
+	parsedBefore := fmt.Sprintf("%v %v %v", sh.pFact, sh.pRule, sh.pCheck)
 	sh.pPolicy, _ = psr.Policy(`allow if resource($any)`, nil)
 	for i := 0; i < 3; i++ {
 		params := gen.Params{}
@@ -286,6 +289,9 @@ func c19Run(c *core.C) {
 		return
 	}
 	c.Count(map[bool]string{true: "baseline_before_concurrency", false: "baseline_after_concurrency"}[baselineFirst], 1)
+	if now := fmt.Sprintf("%v %v %v", sh.pFact, sh.pRule, sh.pCheck); now != parsedBefore {
+		c.Violate("shared-parsed-value-written", "a parsed fact / rule / check shared by the goroutines is not what the parser returned any more", map[string]any{"before": parsedBefore, "now": now})
+	}
 	desc := map[string]any{"token_variant": variant, "blocks": len(tok.Blocks), "goroutines": nG, "gomaxprocs": procs}
 	for g := 0; g < nG; g++ {
 		if panics[g] != nil {
